@@ -22,7 +22,7 @@ RULE = (
     "(on base calls with explicit lists as well as with one or both parameter groups defaulted: chunk<=0; empty tensors/features/losses; non-scalar loss at each index; len(losses)!=len(tasks_params) "
     "both ways; shared/task overlap for each (param, task); duplicate tensor/feature/parameter at each pair of "
     "positions; a non-leaf tensor or a leaf with requires_grad=False at each position of inputs / shared_params "
-    "/ tasks_params[i]; for backward every rejecting aggregator: wrong Constant/pref/leak length, too few rows "
+    "/ tasks_params[i]; a parameter frozen (requires_grad_(False)) after an earlier successful call on the same graph; for backward every rejecting aggregator: wrong Constant/pref/leak length, too few rows "
     "for Krum/TrimmedMean, a simulator-owned aggregator raising ValueError/RuntimeError). Each injected call "
     "runs on a fresh instantiation under 2 (quick) / 3 (thorough) S1 schedules; if it raises, every tensor's "
     ".grad must be the same object with the same bytes as before. One evaluation = one injected call under one "
@@ -82,6 +82,12 @@ def faults_backward(rng, spec, model, call):
             new = list(inputs)
             new.insert(pos, rng.choice(nonrg))
             add("param_no_requires_grad", "inputs", pos, inputs=new)
+    # S3 x F2: a parameter that was valid in an earlier successful call and has been frozen since
+    for pos in range(len(inputs)):
+        c = copy.deepcopy(base)
+        warm = copy.deepcopy(base)
+        warm["retain"] = True
+        F.append({"kind": "param_frozen_after_valid_call", "group": "inputs", "pos": pos, "call": c, "warmup": warm, "freeze": inputs[pos]})
     m = sum(numel(model.values[o].shape) for o in ts)
     rej = [
         ("agg_constant_wrong_rows", {"kind": "Constant", "w": [0.5] * (m + 1)}),
@@ -157,6 +163,12 @@ def faults_mtl(rng, spec, model, roles, call):
             new = [list(tp) for tp in tasks]
             new[ti].insert(rng.randint(0, len(new[ti])), tasks[ti][i])
             add("duplicate_task_param", "tasks", [ti, i], tasks=new)
+    for gi, group in enumerate([shared] + [list(tp) for tp in tasks]):
+        for pos in range(len(group)):
+            c = copy.deepcopy(base)
+            warm = copy.deepcopy(base)
+            warm["retain"] = True
+            F.append({"kind": "param_frozen_after_valid_call", "group": "shared" if gi == 0 else "tasks", "pos": pos if gi == 0 else [gi - 1, pos], "call": c, "warmup": warm, "freeze": group[pos]})
     feats = set(fs)
     trunk_nonleaf = [o for n in spec["nodes"][: roles["trunk_nodes_end"]] for o in n["out"] if model.values[o].rq and o not in feats]
     all_nonleaf = _nonleaf_candidates(spec, model, feats | set(base["losses"]))
@@ -238,6 +250,13 @@ def execute(scn):
         for si, sched in enumerate(scn["scheds"]):
             world = World(spec, sched)
             apply_pre_grads(world, scn.get("pre_grads", {}))
+            if f.get("warmup"):
+                wout, _ = run_call(world, f["warmup"])
+                stats["api_calls"] = stats.get("api_calls", 0) + 1
+                if not wout["ok"] or f["freeze"] not in world.t:
+                    continue
+                world.t[f["freeze"]].requires_grad_(False)
+                stats["reach.parameter_frozen_between_calls"] = stats.get("reach.parameter_frozen_between_calls", 0) + 1
             before = world.grads()
             out, _ = run_call(world, f["call"])
             after = world.grads()
@@ -253,7 +272,7 @@ def execute(scn):
             window = None
             if pos is not None:
                 window = pos[0] > 0
-            elif f["call"]["api"] == "mtl" and f["kind"] in ("param_nonleaf", "param_no_requires_grad"):
+            elif f["call"]["api"] == "mtl" and f["kind"] in ("param_nonleaf", "param_no_requires_grad", "param_frozen_after_valid_call"):
                 tk = f["call"]["tasks"]
                 if tk is None:
                     window = True
